@@ -70,6 +70,10 @@ func genSeqCache(prop string, seed uint64, tier string, kinds []string) *SeqScen
 	sc.Epoch = time.Date(2000, 1, 1, 0, 0, 0, 0, time.UTC).UnixNano() + g.r.Int63n(int64(150*365*24)*int64(time.Hour))
 	kind := kinds[g.r.Intn(len(kinds))]
 	sc.A = InstCfg{Kind: kind, MinLen: 32, SeedTag: simrt.Mix64(seed ^ 0xA)}
+	if g.r.Bool(0.5) {
+		sc.A.MinCap = 1
+		sc.A.MinLen = []int{1, 2, 4, 32}[g.r.Intn(4)]
+	}
 	g.seqHash(&sc.A)
 	sc.HashMode = sc.A.HashMode
 	sc.A.Ctor = g.seqCtor(kind, prop)
